@@ -205,7 +205,7 @@ class Verdict:
     def violation(self, signature, text, replay_obj, features=None):
         """Report a violation; matched against the known findings by signature (+ feature dict)."""
         for k in self.kf:
-            if k.get('status') == 'known' and k.get('signature') == signature:
+            if k.get('status') == 'known' and (k.get('signature') == signature or (k.get('signature', '').endswith('*') and signature.startswith(k['signature'][:-1]))):
                 want = k.get('match') or {}
                 if all((features or {}).get(a) == b for a, b in want.items()):
                     self.known_hits.setdefault(k['id'], k.get('description', text))
